@@ -89,7 +89,7 @@ class SrcWorld(World):
     def enabled(self, st):
         evs = []
         for e in self.alphabet:
-            if e[0] == "expire":
+            if e[0] in ("expire", "advance"):
                 if clock.next_expiry(st.S.h) is not None:
                     evs.append(e)
             else:
@@ -131,18 +131,27 @@ class SrcWorld(World):
         ent = st.S
         out["pre_step"] = ent.h.states.step.name
         out["pre_state"] = ent.h.state.name
+        rem = [clock.remaining(t) for t in clock.timers(ent.h)]
+        out["timers"] = [len(rem), sum(1 for r in rem if r == 0)]  # armed timers, of which expired at call entry
         if k == "tick":
             obs, msgs = ent.step(None)
         elif k == "expire":
             delta = clock.next_expiry(ent.h)
             clock.advance(ent.h, delta)
             out["dt"] = delta
+            rem = [clock.remaining(t) for t in clock.timers(ent.h)]
+            out["timers"] = [len(rem), sum(1 for r in rem if r == 0)]
             obs, msgs = ent.step(None)
         elif k == "put":
             obs, msgs, ret = ent.call(ent.h.put_request, self.put_req(ev[1]))
             out["ret"] = ret
             if ret is True:
                 st.nput += 1
+        elif k == "advance":  # time passes up to the next expiry; the handler is not called
+            delta = clock.next_expiry(ent.h)
+            clock.advance(ent.h, delta)
+            out["dt"] = delta
+            obs, msgs = {}, []
         elif k == "cancel":
             obs, msgs, ret = ent.call(ent.h.cancel_request, self.cur_tid(st, wrong=(ev[1] == "wrong")))
             out["ret"] = ret
@@ -173,7 +182,7 @@ class SrcWorld(World):
         pass
 
     def quiet(self, obs):
-        return set(obs) <= {"pre_step", "post_step", "pre_state", "post_state", "dt"} and obs.get("pre_step") == obs.get("post_step")
+        return set(obs) <= {"pre_step", "post_step", "pre_state", "post_state", "dt", "timers"} and obs.get("pre_step") == obs.get("post_step")
 
     @staticmethod
     def inds(out, kind=None):
